@@ -106,7 +106,8 @@ def run(ctx):
     ctx.explore("ctor", lambda rng: {"op": "ctor", "ops": []}, run_case, 1)
     for name, prof, n in [("cma", "cma", ctx.n(220, 15000)), ("cma-percell", "percell", ctx.n(120, 8000)),
                           ("cma-ties", "ties", ctx.n(100, 7000)), ("cma-gap", "gap", ctx.n(100, 7000)),
-                          ("cma-tmin-edge", "tminedge", ctx.n(80, 6000))]:
+                          ("cma-tmin-edge", "tminedge", ctx.n(80, 6000)),
+                          ("cma-mixed-magnitudes", "xmag", ctx.n(80, 6000))]:
         ctx.explore(name, gen(prof), run_case, n, nontrivial=archlib.nontrivial_c01, time_budget=budget)
 
 
